@@ -96,7 +96,7 @@ TimeKids(N, acc, x, i, sync) ==
            raw == LocalEnd(N[k], sb, B, acc.du[k])
            E   == Max2(B, raw)
        IN  TimeKids(N, [acc EXCEPT !.bl[k] = B, !.el[k] = E,
-                                   !.neg = @ \/ (N[x].tc = "seq" /\ raw < B)], x, i + 1, E)
+                                   !.neg = @ \/ raw < B], x, i + 1, E)
 
 MaxEnd(N, acc, x) ==
   LET ks == N[x].kids
@@ -129,7 +129,7 @@ Down(N, loc, ab, x) ==
            E  == IF p = 0 THEN le ELSE Min2(Plus(ab.b[p], le), ab.e[p])
        IN  Down(N, loc, [b |-> [ab.b EXCEPT ![x] = B], e |-> [ab.e EXCEPT ![x] = E]], x + 1)
 
-\* absolute intervals [b, e) of all nodes, and whether a seq child has an end that resolves before its begin
+\* absolute intervals [b, e) of all nodes, and whether some element has an end that resolves before its begin
 Intervals(N) ==
   LET n    == Len(N)
       z    == [x \in 1..n |-> 0]
@@ -140,7 +140,8 @@ Intervals(N) ==
 Active(iv, x, t) == iv.b[x] <= t /\ t < iv.e[x]
 
 \* Domain of the timing clauses (DESIGN.md sec. 8, modelling decisions): TTML2 does not say whether set / br children
-\* take part in a sequence, nor what follows a sequential child whose end resolves before its begin.
+\* take part in a sequence, nor what an element whose end resolves before its begin contributes to the implicit duration
+\* of its container (and hence to whatever follows that container in a sequence).
 TimingInDomain(N, iv) ==
   /\ ~iv.neg
   /\ \A x \in 1..Len(N) : (N[x].kind \in {"set", "br"} /\ N[x].parent # 0) => N[N[x].parent].tc = "par"
